@@ -25,6 +25,10 @@ type Opts struct {
 	LegacySpell bool // definitions / #/definitions/
 	Titles      bool
 	Unicode     bool // multi-byte strings in documents
+	// scope restrictions (each excludes one known-finding region from a stream that is judged by the reference)
+	NoNestedLimits bool // no minItems/maxItems on an array whose items are arrays (K2)
+	NoFormatDefs   bool // no format-typed strings as definitions (a defined type loses the format's methods)
+	NoAliasDefs    bool // no definition that is only a $ref to another definition (becomes interface{}, K18)
 }
 
 func AllOpts() Opts {
@@ -162,7 +166,14 @@ func toAny[T any](xs []T) []any {
 func (g *G) ArrSchema(depth int) M {
 	g.hit("kw:array")
 	r := g.R
-	s := M{"type": "array", "items": g.PropSchema(depth+1, true)}
+	items := g.PropSchema(depth+1, true)
+	s := M{"type": "array", "items": items}
+	if g.O.NoNestedLimits {
+		it, _ := g.resolve(items)
+		if typeOf(it) == "array" {
+			return s
+		}
+	}
 	if r.P(0.5) {
 		s["minItems"] = core.Pick(r, []int{1, 2})
 		g.hit("kw:minItems")
@@ -335,9 +346,21 @@ func (g *G) Root(id string) M {
 	g.Draft4 = r.P(0.3)
 	g.Defs = M{}
 	if g.O.Defs {
-		for _, dn := range core.Sample(r, []string{"Thing", "Pos", "Name", "Item", "my_def"}, r.Intn(3)) {
-			g.Defs[dn] = g.PropSchema(1, false)
+		saved := g.O.Formats
+		if g.O.NoFormatDefs {
+			g.O.Formats = false
 		}
+		for _, dn := range core.Sample(r, []string{"Thing", "Pos", "Name", "Item", "my_def"}, r.Intn(3)) {
+			d := g.PropSchema(1, false)
+			for tries := 0; g.O.NoAliasDefs && d["$ref"] != nil && tries < 20; tries++ {
+				d = g.PropSchema(1, false)
+			}
+			if g.O.NoAliasDefs && d["$ref"] != nil {
+				d = M{"type": "boolean"}
+			}
+			g.Defs[dn] = d
+		}
+		g.O.Formats = saved
 	}
 	root := g.ObjSchema(0)
 	if id != "" {
